@@ -11,6 +11,7 @@ from numpy.typing import NDArray  # noqa: TC002
 from ropt.config.enopt import EnOptConfig
 from ropt.ensemble_evaluator import EnsembleEvaluator
 from ropt.enums import EventType, OptimizerExitCode
+from ropt.exceptions import OptimizationAborted
 from ropt.optimization import EnsembleOptimizer
 from ropt.plan import Event, Plan
 from ropt.plugins.plan.base import PlanStep
@@ -90,13 +91,12 @@ class DefaultOptimizerStep(PlanStep):
         self._nested_optimization = nested_optimization
         self._metadata = metadata
 
-        self.emit_event(
-            Event(
-                event_type=EventType.START_OPTIMIZER_STEP,
-                config=self._config,
-                source=self.id,
-            )
-        )
+        # A user abort may be raised by any handler or observer of an event,
+        # also by those of the events that mark the start and end of the step:
+        exit_code = self._emit_step_event(EventType.START_OPTIMIZER_STEP)
+        if exit_code is not None:
+            finished_code = self._emit_step_event(EventType.FINISHED_OPTIMIZER_STEP)
+            return exit_code if finished_code is None else finished_code
 
         if variables is None:
             variables = self._config.variables.initial_values
@@ -128,15 +128,19 @@ class DefaultOptimizerStep(PlanStep):
         if exit_code == OptimizerExitCode.USER_ABORT:
             self.plan.abort()
 
-        self.emit_event(
-            Event(
-                event_type=EventType.FINISHED_OPTIMIZER_STEP,
-                config=self._config,
-                source=self.id,
-            )
-        )
+        finished_code = self._emit_step_event(EventType.FINISHED_OPTIMIZER_STEP)
+        return exit_code if finished_code is None else finished_code
 
-        return exit_code
+    def _emit_step_event(self, event_type: EventType) -> OptimizerExitCode | None:
+        try:
+            self.emit_event(
+                Event(event_type=event_type, config=self._config, source=self.id)
+            )
+        except OptimizationAborted as exc:
+            if exc.exit_code == OptimizerExitCode.USER_ABORT:
+                self.plan.abort()
+            return exc.exit_code
+        return None
 
     def emit_event(self, event: Event) -> None:
         """Emit an event.
